@@ -1,0 +1,24 @@
+//go:build verif
+
+package flaggedproducer
+
+// Machine-checked contracts for /verif (read as text by the VC generator; no code).
+//
+// gMarked[s]: the dirty mark of store s is on disk (a Put of the one-byte dirty mark under the flush-ID key has
+// succeeded on the wrapped store since the last clean mark was written).
+//@ ghost gMarked[*flaggedStore] bool
+//@ // store invariant: the in-memory Dirty flag never claims more than what is on disk
+//@ spec fsinv(s *flaggedStore) bool = s != nil && s.Store != nil && (s.Dirty != 0 ==> gMarked[s])
+//@ spec isDirtyMark(v []byte) bool = len(v) == 1 && v[0] == 222
+//@
+//@ // modified(): after a successful return the dirty mark is on disk; it is written (to the wrapped store, under the
+//@ // flush-ID key) exactly when the store was clean in memory; a failed mark write must not leave the store dirty in
+//@ // memory only -- otherwise later data writes would go to a store whose on-disk mark is still clean
+//@ func (*flaggedStore).modified
+//@   requires fsinv(s)
+//@   modifies s.Dirty, gMarked[s], gKeyValueWriterPutN, gKeyValueWriterPutRecv, gKeyValueWriterPutA0, gKeyValueWriterPutA1, gKeyValueWriterPutR0, gWrOpN, gWrOpKind[*], gWrOpRecv[*], gWrOpKey[*], gWrOpVal[*], gWrOpErr[*]
+//@   at call KeyValueWriter.Put[1] ghost gMarked[s] = gMarked[s] || gKeyValueWriterPutR0 == nil after
+//@   ensures  [inv] fsinv(s)
+//@   ensures  [ok] result == nil ==> gMarked[s] && s.Dirty != 0
+//@   ensures  [write] old(s.Dirty) == 0 ==> gWrOpN == old(gWrOpN) + 1 && gWrOpKind[gWrOpN - 1] == 1 && gWrOpRecv[gWrOpN - 1] == s.Store && gWrOpKey[gWrOpN - 1] == s.flushIDKey && isDirtyMark(gWrOpVal[gWrOpN - 1]) && result == gWrOpErr[gWrOpN - 1]
+//@   ensures  [nowrite] old(s.Dirty) != 0 ==> gWrOpN == old(gWrOpN) && result == nil
